@@ -7,6 +7,7 @@ import (
 	"fmt"
 	"os"
 	"path/filepath"
+	"regexp"
 	"runtime"
 	"strconv"
 	"strings"
@@ -41,6 +42,49 @@ type workerOut struct {
 	Done       bool              `json:"done"`
 	WallS      float64           `json:"wall_s"`
 	Nondet     []int64           `json:"nondeterministic_seeds,omitempty"`
+	KnownHits  map[string]int    `json:"known_hits,omitempty"`
+}
+
+type knownFinding struct {
+	ID       string `json:"id"`
+	Property string `json:"property"`
+	Status   string `json:"status"`
+	ClassRe  string `json:"class_re"`
+	MsgRe    string `json:"msg_re"`
+	cre, mre *regexp.Regexp
+}
+
+// loadKnown reads the open known findings of one property (the file is only
+// ever read; matching violations are counted, not minimised, and do not stop
+// the batch).
+func loadKnown(prop string) []*knownFinding {
+	path := os.Getenv("VERIF_KNOWN_FILE")
+	if path == "" {
+		return nil
+	}
+	b, err := os.ReadFile(path)
+	if err != nil {
+		return nil
+	}
+	var f struct {
+		Findings []*knownFinding `json:"findings"`
+	}
+	if json.Unmarshal(b, &f) != nil {
+		return nil
+	}
+	var out []*knownFinding
+	for _, k := range f.Findings {
+		if k.Property != prop || (k.Status != "" && k.Status != "open") {
+			continue
+		}
+		var e1, e2 error
+		k.cre, e1 = regexp.Compile(k.ClassRe)
+		k.mre, e2 = regexp.Compile("(?s)" + k.MsgRe)
+		if e1 == nil && e2 == nil {
+			out = append(out, k)
+		}
+	}
+	return out
 }
 
 func envInt(name string, def int64) int64 {
@@ -126,7 +170,8 @@ func TestSim(t *testing.T) {
 	progress := os.Getenv("VERIF_PROGRESS")
 	maxViol := int(envInt("VERIF_MAX_VIOLATIONS", 3))
 
-	wo := &workerOut{Property: prop, Tier: tier, Stats: map[string]int{}}
+	wo := &workerOut{Property: prop, Tier: tier, Stats: map[string]int{}, KnownHits: map[string]int{}}
+	known := loadKnown(prop)
 	t0 := time.Now()
 	seed := start
 	for ; seed < start+count; seed++ {
@@ -186,6 +231,17 @@ func TestSim(t *testing.T) {
 			continue
 		}
 		if res.Class != "" {
+			isKnown := false
+			for _, k := range known {
+				if k.cre.MatchString(res.Class) && k.mre.MatchString(res.Msg) {
+					wo.KnownHits[k.ID]++
+					isKnown = true
+					break
+				}
+			}
+			if isKnown {
+				continue
+			}
 			v := workerViolation{Seed: seed, Class: res.Class, Msg: res.Msg, Step: res.Step}
 			if replayDir != "" {
 				rec := res.rec
